@@ -11,6 +11,8 @@ R04.3  call_indirect: TF(<table use>, <index slot>, R (*)(<module>Instance*, P..
        from the same function type as the argument list
 R04.4  element segments place &<function use of functionIndices[k]> at <table of tableIndex>.data[offset + k]
        (decided in C06 R06.3 for defined and imported tables; here: the identifiers agree with the declarations)
+       and the table/element initialiser runs exactly once on the instance being created in Instantiate *and* NewChild
+       (shared with C06: a child instance with uninitialised tables cannot serve call_indirect)
 """
 import re
 
@@ -215,6 +217,10 @@ def run(chk):
     # they must agree for every name, otherwise a call reaches another (or no) C function
     from . import c09
     c09.check_twins(chk, tus, rule='R04.2')
+    # tables of every instance - including child instances made by NewChild - are filled before call_indirect can use them
+    from . import c06
+    c06.check_table_receivers(chk, tus, 'R04.4')
+    chk.floor('R04.4', 12)
     chk.floor('R04.1', 40)
     chk.floor('R04.2', 12)
     chk.floor('R04.3', 20)
